@@ -341,3 +341,46 @@ def r6(c):
 def r7(c):
     from rules import c08
     c08.r7(c)
+
+
+@rule('C18', 'R18.8', 'TLS client configuration crosses the C ABI unchanged: server-name verification is switched off only by the explicit opt-in (flag AND name "*"); every other name is passed on to be verified',
+      needs=lambda P: 'rodbus_ffi' in P.crates and P.has('rodbus::tcp::tls::client::TlsClientConfig::full_pki'))
+def r8(c):
+    P = c.P
+    FULL = 'rodbus::tcp::tls::client::TlsClientConfig::full_pki'
+    sites = [cs for cs in P.callers(FULL) if cs.body.crate == 'rodbus_ffi']
+    cs = one(sites, 'TlsClientConfig::full_pki call in rodbus-ffi')
+    b = cs.body
+    c.saw(b, len(b.calls()))
+    alts = q.sem_alts(b, cs.args[0])
+    none = [a for a in alts if a.kind == 'agg' and isinstance(a.extra, dict) and a.extra.get('variant') == 'None']
+    some = [a for a in alts if a.kind == 'agg' and isinstance(a.extra, dict) and a.extra.get('variant') == 'Some']
+    c.ob('subject-name/alternatives', len(alts) == 2 and len(none) == 1 and len(some) == 1, 'the expected subject name handed to full_pki is either None or Some(name)', repr(alts), cs.loc())
+    if len(none) != 1 or len(some) != 1:
+        return
+    # where the None is built
+    nsite = [('b', i) for i, s_ in b.assigns() if s_['rv'] is none[0].extra]
+    # the flag
+    flag_true = []
+    for i in b.switches():
+        info = b.switch_info(i)
+        if info['kind'] != 'bool':
+            continue
+        cnd = info['cond']
+        if cnd[0] == 'place' and cnd[2] and cnd[2][-1].endswith(':allow_server_name_wildcard'):
+            t = b.blocks[i]['term']
+            for e in [('e', i, str(v)) for v, _ in t['vals']] + [('e', i, 'otherwise')]:
+                if b.edge_bool(e) is True:
+                    flag_true.append(e)
+    # the comparison with "*"
+    star_true = []
+    for ec in b.calls('core::cmp::PartialEq::eq'):
+        if any((q.sem(b, a).kind == 'const' and '*' in str(q.sem(b, a).extra.get('repr', q.sem(b, a).const))) or
+               (q.sem(b, a).kind == 'const' and 'promoted' in (q.sem(b, a).extra or {})) for a in ec.args):
+            star_true += q.bool_edges(b, ec)['true']
+    ok = len(nsite) == 1 and bool(flag_true) and bool(star_true) and q.dominated_by_any(b, flag_true, nsite[0]) and q.dominated_by_any(b, star_true, nsite[0])
+    c.ob('subject-name/none-needs-both', ok, 'None (no server-name verification) is built only where allow_server_name_wildcard is true AND the configured name equals "*"',
+         '%d flag edges, %d comparison edges, None built at %s' % (len(flag_true), len(star_true), [loc_of(b, n[1]) for n in nsite]), cs.loc())
+    nm = q.sem(b, some[0].extra['a'][0])
+    okn = nm.kind == 'call' and (nm.cs.callee or '').endswith('::to_string') and 'dns_name' in ''.join(str(y) for y in b.op_closure(nm.cs.args[0]))
+    c.ob('subject-name/some-is-dns-name', okn, 'otherwise the name handed on is the configured dns_name', repr(nm), cs.loc())
